@@ -143,7 +143,7 @@ func runC09(r *Run, p *Prog) {
 		n := panicCensus(r, p, NewTerms(p), "O4", fns)
 		// regexp.MustCompile on constants: compile them here
 		for f := range fns {
-			for _, cs := range callsNamed(f, false, "regexp.MustCompile") {
+			for _, cs := range compiledPatterns(p, f) {
 				n++
 				k, isK := cs.Common.Args[0].(*ssa.Const)
 				ok := false
